@@ -30,10 +30,15 @@ HasRepeat(s) == \E a, b \in 1..Len(s) : a # b /\ s[a][1] = s[b][1] /\ s[a][2] = 
 
 (* verdict on the optional fields of one re-emitted record; cgfree: the emitting command may  *)
 (* (re)write the CIGAR even if the input had none (realign)                                    *)
+Mask(s) == [k \in 1..Len(s) |-> IF IsCg(s[k]) THEN <<"cg", "Z", "*">> ELSE s[k]]     \* the CIGAR value may be rewritten, its place may not
+NoDs(s) == SelectSeq(s, LAMBDA f : ~IsDs(f))
+HasCg(s) == \E k \in 1..Len(s) : IsCg(s[k])
 TagsVerdict(inp, out, cgfree) ==
   IF NoCg(out) = NoCgDs(inp) THEN
-       (IF ~cgfree /\ (\E k \in 1..Len(out) : IsCg(out[k])) /\ ~(\E k \in 1..Len(inp) : IsCg(inp[k])) THEN "cigar_field_invented"
+       (IF ~cgfree /\ HasCg(out) /\ ~HasCg(inp) THEN "cigar_field_invented"
         ELSE IF Len(SelectSeq(out, IsCg)) > 1 THEN "cigar_field_duplicated"
+        ELSE IF HasCg(inp) /\ ~HasCg(out) THEN "cigar_field_dropped"
+        ELSE IF HasCg(inp) /\ Mask(out) # Mask(NoDs(inp)) THEN "cigar_field_moved"
         ELSE "ok")
   ELSE IF HasRepeat(NoCgDs(inp)) /\ NoCg(out) = Dedup(NoCgDs(inp), {}) THEN "repeated_tag_later_occurrence_dropped"
   ELSE IF \E k \in 1..Len(out) : ~IsCg(out[k]) /\ ~(\E j \in 1..Len(inp) : inp[j][1] = out[k][1] /\ inp[j][2] = out[k][2]) THEN "field_invented"
